@@ -3,63 +3,169 @@ package vx
 import (
 	"github.com/cube2222/octosql/execution"
 	"github.com/cube2222/octosql/execution/nodes"
+	"github.com/cube2222/octosql/functions"
 	"github.com/cube2222/octosql/octosql"
 	"github.com/cube2222/octosql/zzverif"
 )
 
-// refInnerJoinCount: multiplicity of the joined row (l ++ r) in the reference inner equi-join on
-// column 0 (an equality never matches NULL keys).
-func joinedRow(l, r execution.Record) execution.Record {
-	vals := append(append([]octosql.Value{}, l.Values...), r.Values...)
-	return execution.Record{Values: vals}
+// Join kinds for the C02 / C19 harnesses.
+const (
+	JoinInner = iota
+	JoinLeft
+	JoinRight
+	JoinFull
+	JoinLookup
+)
+
+func concatRow(l, r []octosql.Value) []octosql.Value {
+	return append(append([]octosql.Value{}, l...), r...)
 }
 
-// VerifC02StreamJoin: inner stream join of two symbolic tables on column 0, every receive order.
-func VerifC02StreamJoin() {
-	n := zzverif.Param("N")
-	left := NDTable("l", n, 2)
-	right := NDTable("r", n, 2)
+func nullRow(n int) []octosql.Value { return make([]octosql.Value, n) }
+
+// KeysMatch: SQL equality on the key columns (never matches NULL), branch-free.
+func KeysMatch(l, r []octosql.Value, keyCols int) bool {
+	ok := true
+	for i := 0; i < keyCols; i++ {
+		ok = zzverif.And(ok, zzverif.And(l[i].TypeID == octosql.TypeIDInt, zzverif.And(r[i].TypeID == octosql.TypeIDInt, l[i].Int == r[i].Int)))
+	}
+	return ok
+}
+
+// RefJoinCount is the multiplicity of row x in the reference join of the consolidated inputs
+// (left/right given as changelogs; retractions count -1). Outer sides pad every row that has no
+// match in the consolidated other side exactly once with NULLs.
+func RefJoinCount(kind int, left, right []execution.Record, keyCols, lcols, rcols int, x []octosql.Value) int {
+	sign := func(r execution.Record) int {
+		if r.Retraction {
+			return -1
+		}
+		return 1
+	}
+	c := 0
+	for _, l := range left {
+		for _, r := range right {
+			m := zzverif.And(KeysMatch(l.Values, r.Values, keyCols), RowEq(concatRow(l.Values, r.Values), x))
+			c += zzverif.IteInt(m, sign(l)*sign(r), 0)
+		}
+	}
+	if kind == JoinLeft || kind == JoinFull {
+		for _, l := range left {
+			// number of matching right rows in the consolidated right input
+			matches := 0
+			for _, r := range right {
+				matches += zzverif.IteInt(KeysMatch(l.Values, r.Values, keyCols), sign(r), 0)
+			}
+			m := zzverif.And(matches == 0, RowEq(concatRow(l.Values, nullRow(rcols)), x))
+			c += zzverif.IteInt(m, sign(l), 0)
+		}
+	}
+	if kind == JoinRight || kind == JoinFull {
+		for _, r := range right {
+			matches := 0
+			for _, l := range left {
+				matches += zzverif.IteInt(KeysMatch(l.Values, r.Values, keyCols), sign(l), 0)
+			}
+			m := zzverif.And(matches == 0, RowEq(concatRow(nullRow(lcols), r.Values), x))
+			c += zzverif.IteInt(m, sign(r), 0)
+		}
+	}
+	return c
+}
+
+// JoinCandidates lists every row that can appear in the reference result or in the output.
+func JoinCandidates(left, right, out []execution.Record, lcols, rcols int) [][]octosql.Value {
+	var cands [][]octosql.Value
+	for _, l := range left {
+		for _, r := range right {
+			cands = append(cands, concatRow(l.Values, r.Values))
+		}
+		cands = append(cands, concatRow(l.Values, nullRow(rcols)))
+	}
+	for _, r := range right {
+		cands = append(cands, concatRow(nullRow(lcols), r.Values))
+	}
+	for _, o := range out {
+		cands = append(cands, o.Values)
+	}
+	return cands
+}
+
+func keyExprs(keyCols int) []execution.Expression {
+	out := make([]execution.Expression, keyCols)
+	for i := range out {
+		out[i] = execution.NewVariable(0, i)
+	}
+	return out
+}
+
+// MakeJoin builds the real join node of the given kind over two sources.
+func MakeJoin(kind int, left, right execution.Node, keyCols, lcols, rcols int) execution.Node {
+	switch kind {
+	case JoinInner:
+		return nodes.NewStreamJoin(left, right, keyExprs(keyCols), keyExprs(keyCols))
+	case JoinLeft:
+		return nodes.NewOuterJoin(left, right, lcols, rcols, keyExprs(keyCols), keyExprs(keyCols), true, false)
+	case JoinRight:
+		return nodes.NewOuterJoin(left, right, lcols, rcols, keyExprs(keyCols), keyExprs(keyCols), false, true)
+	case JoinFull:
+		return nodes.NewOuterJoin(left, right, lcols, rcols, keyExprs(keyCols), keyExprs(keyCols), true, true)
+	case JoinLookup:
+		// joined side: Filter(right, right.key = left.key) evaluated once per source record, the way
+		// the planner materialises a LOOKUP JOIN with the equality pushed into the joined branch
+		eq := functions.FunctionMap()["="].Descriptors[0].Function
+		var pred execution.Expression
+		conj := make([]execution.Expression, keyCols)
+		for i := 0; i < keyCols; i++ {
+			conj[i] = execution.NewFunctionCall(eq, []execution.Expression{execution.NewVariable(0, i), execution.NewVariable(1, i)}, []int{0, 1})
+		}
+		if keyCols == 1 {
+			pred = conj[0]
+		} else {
+			pred = execution.NewAnd(conj)
+		}
+		return nodes.NewLookupJoin(left, nodes.NewFilter(right, pred))
+	}
+	panic("bad join kind")
+}
+
+// VerifC02Join: the join of two symbolic tables (0..N rows each, KEYS key columns Int|NULL plus
+// one payload column) equals the relational join, for every receive order of the two inputs
+// (every select choice is forked, so "left ends first" and "right ends first" both occur).
+// KIND: 0 inner stream join, 1 left, 2 right, 3 full outer join, 4 lookup join.
+func VerifC02Join() {
+	n, keys, kind := zzverif.Param("N"), zzverif.Param("KEYS"), zzverif.Param("KIND")
+	cols := keys + 1
 	var lrecs, rrecs []execution.Record
-	for _, row := range left {
-		lrecs = append(lrecs, execution.Record{Values: row})
+	// Key columns are symbolic Int|NULL; the payload column is concrete: the row index (PAYLOAD=0,
+	// rows are pairwise different) or the constant 7 (PAYLOAD=1, rows with equal keys are
+	// complete duplicates) — its only role is to tell rows apart or not.
+	payload := func(i int) octosql.Value {
+		if zzverif.Param("PAYLOAD") == 1 {
+			return octosql.NewInt(7)
+		}
+		return octosql.NewInt(int64(i))
 	}
-	for _, row := range right {
-		rrecs = append(rrecs, execution.Record{Values: row})
+	for i, row := range NDTable("l", n, keys) {
+		lrecs = append(lrecs, execution.Record{Values: append(row, payload(i))})
 	}
-	node := nodes.NewStreamJoin(NewScriptSource(RecordsToMsgs(lrecs)), NewScriptSource(RecordsToMsgs(rrecs)),
-		[]execution.Expression{execution.NewVariable(0, 0)}, []execution.Expression{execution.NewVariable(0, 0)})
+	for i, row := range NDTable("r", n, keys) {
+		rrecs = append(rrecs, execution.Record{Values: append(row, payload(10+i))})
+	}
+	var ls, rs execution.Node = NewScriptSource(RecordsToMsgs(lrecs)), NewScriptSource(RecordsToMsgs(rrecs))
+	if kind != JoinLookup {
+		ls, rs = GateJoinInputs(NewScriptSource(RecordsToMsgs(lrecs)), NewScriptSource(RecordsToMsgs(rrecs)))
+	}
+	node := MakeJoin(kind, ls, rs, keys, cols, cols)
 	sink := &Sink{}
 	err := RunNode(node, sink)
 	zzverif.Reach("ran")
 	zzverif.Assert(err == nil, "no-error")
 	out := sink.Records()
-	// reference: all pairs with equal non-NULL keys
-	var want []execution.Record
-	for _, l := range lrecs {
-		for _, r := range rrecs {
-			match := zzverif.And(l.Values[0].TypeID == octosql.TypeIDInt, zzverif.And(r.Values[0].TypeID == octosql.TypeIDInt, l.Values[0].Int == r.Values[0].Int))
-			j := joinedRow(l, r)
-			_ = match
-			want = append(want, j)
-		}
-	}
 	ok := true
-	refCount := func(x []octosql.Value) int {
-		c := 0
-		for _, l := range lrecs {
-			for _, r := range rrecs {
-				match := zzverif.And(l.Values[0].TypeID == octosql.TypeIDInt, zzverif.And(r.Values[0].TypeID == octosql.TypeIDInt, l.Values[0].Int == r.Values[0].Int))
-				c += zzverif.IteInt(zzverif.And(match, RowEq(joinedRow(l, r).Values, x)), 1, 0)
-			}
-		}
-		return c
+	for _, x := range JoinCandidates(lrecs, rrecs, out, cols, cols) {
+		ok = zzverif.And(ok, Count(out, x) == RefJoinCount(kind, lrecs, rrecs, keys, cols, cols, x))
 	}
-	for _, w := range want {
-		ok = zzverif.And(ok, Count(out, w.Values) == refCount(w.Values))
-	}
-	for _, o := range out {
-		ok = zzverif.And(ok, Count(out, o.Values) == refCount(o.Values))
-	}
-	zzverif.Assert(ok, "output-is-inner-join")
+	zzverif.Assert(ok, "output-is-relational-join")
 	zzverif.Assert(ValidChangelog(out), "output-changelog-valid")
 }
